@@ -16,6 +16,10 @@ class SkeletonError(Exception):
     pass
 
 
+class MalformedOutput(Exception):
+    """The generated tree is not a valid statement list (e.g. a bare expression node in statement position)."""
+
+
 def skeleton_of(fdef: Any, ids: Dict[int, int]) -> List[Any]:
     """Control skeleton of the generated function: original statements / tests / returned expressions are opaque ids
     (node identity), the synthetic shapes (control-variable assignments, `if var in (...)`, flag loops, the return
@@ -57,6 +61,8 @@ def skeleton_of(fdef: Any, ids: Dict[int, int]) -> List[Any]:
                     raise SkeletonError("synthetic assignment of unknown shape: " + ast.dump(n)[:80])
             elif isinstance(n, ast.Return) and isinstance(n.value, ast.Name) and n.value.id == "__scfg_return_value__":
                 out.append({"k": "return"})
+            elif not isinstance(n, ast.stmt):
+                raise MalformedOutput("%s node in statement position: %s" % (type(n).__name__, ast.dump(n)[:60]))
             else:
                 raise SkeletonError("statement of unknown shape: " + ast.dump(n)[:80])
         return out
@@ -129,6 +135,13 @@ def pipeline(src: str, want_census: bool = True) -> Dict[str, Any]:
         except SkeletonError as e:
             out["skeleton"] = []
             out["skeleton_exc"] = str(e)
+        except MalformedOutput as e:
+            out["outcome"] = "internal"
+            out["exc"] = "MalformedAST@SCFG2AST"
+            out["stage"] = "scfg2ast"
+            out["skeleton"] = []
+            out["skeleton_exc"] = ""
+            return out
         out["stage"] = "unparse"
         text = ast.unparse(ast.fix_missing_locations(ast.Module(body=[fdef], type_ignores=[])))
         out["text"] = text
